@@ -16,6 +16,7 @@
 //   'u' user line               'z' user EOF
 //   'r' "<seed> <absent_errno> <short_after>"   /dev/urandom
 //   'c' "<readline_cap> <fill_stack 0|1> [<probe 0|1>]"
+//   'w' "<cols> <rows>" terminal size      'b' "<pos>" press TAB at this cursor position of the next user line
 // result (zygote -> python), terminated by '.':
 //   events recorded by the child (see emit()) followed by
 //   'X' raw bytes the child wrote to its real fd 1/2 (sanitizer reports)
@@ -35,6 +36,7 @@
 #include <fcntl.h>
 #include <malloc.h>
 #include <signal.h>
+#include <sys/ioctl.h>
 #include <sys/mman.h>
 #include <sys/personality.h>
 #include <sys/resource.h>
@@ -48,6 +50,7 @@ void __real_exit(int) __attribute__((noreturn));
 int __real_isatty(int);
 int __real_fileno(FILE*);
 char* __real_getenv(const char*);
+int __real_ioctl(int, unsigned long, void*);
 // optional white-box probe (seam/probe.cpp, one function per field group), absent for tap and btcc
 size_t btcsim_probe_core(char* out, size_t cap) __attribute__((weak));
 size_t btcsim_probe_counters(char* out, size_t cap) __attribute__((weak));
@@ -146,6 +149,8 @@ struct World {
     long readline_cap = 10000;
     bool fill_stack = true;
     bool probe = true;
+    int win_cols = 80, win_rows = 24;                 // what TIOCGWINSZ reports for a terminal end
+    std::map<size_t, std::vector<long>> tabs;         // user line index -> cursor positions at which TAB is pressed
     std::map<std::string, FileSpec> fs;
 };
 World W;
@@ -427,6 +432,8 @@ bool parse_world() {
         case 'u': W.user.push_back({false, p}); break;
         case 'z': W.user.push_back({true, ""}); break;
         case 'r': { unsigned long long s; int e; long sh; if (sscanf(p.c_str(), "%llu %d %ld", &s, &e, &sh) == 3) { W.urandom_seed = s; W.urandom_absent_errno = e; W.urandom_short_after = sh; } break; }
+        case 'w': { int c, r; if (sscanf(p.c_str(), "%d %d", &c, &r) == 2) { W.win_cols = c; W.win_rows = r; } break; }
+        case 'b': { long pos; if (sscanf(p.c_str(), "%ld", &pos) == 1) W.tabs[W.user.size()].push_back(pos); break; }
         case 'c': { long cap; int fs; int pr = 1; if (sscanf(p.c_str(), "%ld %d %d", &cap, &fs, &pr) >= 2) { W.readline_cap = cap; W.fill_stack = fs != 0; W.probe = pr != 0; } break; }
         default: break;
         }
@@ -466,6 +473,35 @@ int child_run() {
 // ===================================================================== seams
 extern "C" {
 
+// --- the TAB key: GNU readline would call the application's completion hook with the word under the cursor
+extern "C" { extern char* rl_line_buffer; extern int rl_point; }
+typedef char** rl_completion_func_t(const char*, int, int);
+extern "C" rl_completion_func_t* rl_attempted_completion_function;
+static void press_tab(const std::string& line, long pos) {
+    if (!rl_attempted_completion_function) return;
+    if (pos < 0) pos = 0;
+    if ((size_t)pos > line.size()) pos = (long)line.size();
+    std::string upto = line.substr(0, (size_t)pos);
+    size_t start = upto.find_last_of(" \t");
+    start = start == std::string::npos ? 0 : start + 1;
+    std::string word = upto.substr(start);
+    char* saved = rl_line_buffer;
+    int saved_point = rl_point;
+    rl_line_buffer = strdup(line.c_str());
+    rl_point = (int)pos;
+    emitf('S', "tab %ld", pos);
+    char** m = rl_attempted_completion_function(word.c_str(), (int)start, (int)pos);
+    if (m) {
+        std::string all;
+        for (size_t i = 0; m[i]; i++) { all += m[i]; all += ' '; free(m[i]); }
+        free(m);
+        emit('C', all.data(), all.size());
+    }
+    free(rl_line_buffer);
+    rl_line_buffer = saved;
+    rl_point = saved_point;
+}
+
 char* readline(const char* prompt) {
     fflush(stdout); fflush(stderr);
     emit('R', prompt ? prompt : "", prompt ? strlen(prompt) : 0);
@@ -479,7 +515,10 @@ char* readline(const char* prompt) {
         emit('Z', "", 0);
         return nullptr;
     }
+    size_t idx = g_user_i;
     const std::string& l = W.user[g_user_i++].second;
+    auto tb = W.tabs.find(idx);
+    if (tb != W.tabs.end()) for (long pos : tb->second) press_tab(l, pos);
     emit('L', l.data(), l.size());
     return strdup(l.c_str());
 }
@@ -487,12 +526,32 @@ char* readline(const char* prompt) {
 // observable through any property
 void add_history(const char* s) { emit('H', s ? s : "", s ? strlen(s) : 0); }
 const char* rl_readline_name = nullptr;
-typedef char** rl_completion_func_t(const char*, int, int);
 rl_completion_func_t* rl_attempted_completion_function = nullptr;
 char* rl_line_buffer = nullptr;
 int rl_point = 0;
 typedef char* rl_compentry_func_t(const char*, int);
-char** rl_completion_matches(const char*, rl_compentry_func_t*) { return nullptr; }
+char** rl_completion_matches(const char* text, rl_compentry_func_t* gen) {
+    // as GNU readline does: ask the generator until it returns NULL; slot 0 holds the common prefix
+    std::vector<char*> found;
+    for (int state = 0; ; state = 1) {
+        char* m = gen(text, state);
+        if (!m) break;
+        found.push_back(m);
+        if (found.size() > 10000) break;
+    }
+    if (found.empty()) return nullptr;
+    char** arr = (char**)malloc(sizeof(char*) * (found.size() + 2));
+    size_t common = strlen(found[0]);
+    for (size_t i = 1; i < found.size(); i++) {
+        size_t k = 0;
+        while (k < common && found[i][k] && found[i][k] == found[0][k]) k++;
+        common = k;
+    }
+    arr[0] = strndup(found[0], common);
+    for (size_t i = 0; i < found.size(); i++) arr[i + 1] = found[i];
+    arr[found.size() + 1] = nullptr;
+    return arr;
+}
 
 int __wrap_isatty(int fd) {
     int r = fd == 0 ? W.tty_in : fd == 1 ? W.tty_out : fd == 2 ? 1 : 0;
@@ -542,6 +601,20 @@ FILE* __wrap_fopen(const char* path, const char* mode) {
     emitf('S', "fopen %s %s ok", path, mode);
     FileCookie* fc = new FileCookie{&f, writing, 0, 0, 0, "", false, 0};
     return fopencookie(fc, writing ? "w" : "r", fn);
+}
+int __wrap_ioctl(int fd, unsigned long req, void* arg) {
+    if (!g_in_child) return __real_ioctl(fd, req, arg);
+    if (req == TIOCGWINSZ && fd >= 0 && fd <= 2) {
+        int tty = fd == 0 ? W.tty_in : fd == 1 ? W.tty_out : 1;
+        emitf('S', "ioctl winsize %d %d", fd, tty ? W.win_cols : -1);
+        if (!tty) { errno = ENOTTY; return -1; }
+        struct winsize* ws = (struct winsize*)arg;
+        memset(ws, 0, sizeof *ws);
+        ws->ws_col = (unsigned short)W.win_cols;
+        ws->ws_row = (unsigned short)W.win_rows;
+        return 0;
+    }
+    return __real_ioctl(fd, req, arg);
 }
 void __wrap_exit(int code) {
     if (g_in_child) {
